@@ -153,7 +153,14 @@ func (s *Sched) Park(point, key string, data interface{}) interface{} {
 		s.mu.Unlock()
 		return nil
 	}
-	base := s.cause + ">" + point + ":" + key
+	// the lineage of a long causal chain (thousands of wire messages, each caused by the previous one) is
+	// folded: head, a hash of the whole, tail. Labels stay a pure function of the history, and their total
+	// size stays linear in the number of steps instead of quadratic.
+	cause := s.cause
+	if len(cause) > 600 {
+		cause = cause[:200] + "~" + fmt.Sprintf("%016x", HashStr(cause)) + "~" + cause[len(cause)-200:]
+	}
+	base := cause + ">" + point + ":" + key
 	s.occ[base]++
 	s.seq++
 	t := &Task{Label: fmt.Sprintf("%s#%d", base, s.occ[base]), Point: point, Key: key, Data: data,
